@@ -70,11 +70,13 @@ Definition judge_result (c : case) (code : code_table) (s : list byte) (r : res)
   (* trimmed nucleotides: the input (or its reverse complement) from the reported position *)
   existsb (fun strand => if k_cutend c then is_prefix nt (skipn pos strand) else bytes_eqb nt (skipn pos strand))
           (seq_strands (k_reverse c) s) &&
+  (* (a discarded sequence - no acceptable alignment - carries no frame) *)
+  (r_removed r ||
   (* codons in frame with it ... *)
   (if k_translate c then bytes_eqb codon nt
    else existsb (fun ph => bytes_eqb codon (skipn ph nt)) [0; 1; 2]%nat) &&
   (* ... translating to the reported amino acids *)
-  bytes_eqb (translate_from code codon) aa.
+  bytes_eqb (translate_from code codon) aa).
 
 Definition spec_check (c : case) : option bool :=
   let seqs := unrows (k_seqs c) in
